@@ -3,6 +3,7 @@ import XzVerif.Gen.Tables
 import XzVerif.Model.ReadLoop
 import XzVerif.Codec.Lzma2
 import XzVerif.Proofs.Ring
+import XzVerif.Proofs.LazyDec
 /-
   C11 — Readers never panic or stall on arbitrary input.
 
@@ -93,5 +94,17 @@ theorem C11_ring_read_bounded (b : Ring.Buf) (a : Ring.Abs) (cap : Nat) (h : b.R
 example : Gen.panicSites.length = 18 := by decide
 
 example : (Ring.DDict.new 8).Rel ⟨[], 0⟩ 8 := ⟨Ring.new_rel 8, rfl, by decide⟩
+
+/-! ### the classic reader as it runs (Model/LazyDec.lean: lazy, ring level), arbitrary input -/
+
+open LazyDec in
+/-- For EVERY byte string and EVERY schedule of buffer lengths: no call of the lazy classic reader model ends in a
+    panic, in `ErrNoSpace` or in "length out of range" — outcomes are data, end of stream, or one of the reader's
+    error values — and no call delivers more bytes than requested. -/
+theorem C11_classic_reader_outcomes (cfgCap : Nat) (inp : ByteArray) (l : LSt) (h : newReader cfgCap inp = .ok l)
+    (lens : List Nat) :
+    (∀ r ∈ readSeq l lens, r.2 ≠ .err .noSpace ∧ r.2 ≠ .err .lenRange ∧ r.2 ≠ .err .panic) ∧
+    (∀ i (hi : i < (readSeq l lens).length), ((readSeq l lens)[i]).1.size ≤ lens[i]!) :=
+  ⟨LazyDec.never_noSpace cfgCap inp l h lens, fun i hi => ((LazyDec.call_sizes cfgCap inp l h lens).2 i hi).1⟩
 
 end Props.C11
